@@ -288,6 +288,39 @@ theorem drains_cover (s : St) (pg : PageId) (h : pg ∈ s.dirty) (before after :
         simpa using this
       · intro hm; exact hb (List.mem_cons_of_mem _ hm)
 
+/-- draining a list of tables that contains the page's table covers a dirty page, wherever the
+table stands in the list and whatever else is drained -/
+theorem drain_list_covers (fs : List Nat) (s : St) (pg : PageId) (h : pg ∈ s.dirty) (hf : pg.1 ∈ fs) :
+    covered (run s (fs.map .drain)) pg = true := by
+  induction fs generalizing s with
+  | nil => simp at hf
+  | cons f rest ih =>
+    simp only [List.map_cons, run]
+    by_cases e : f = pg.1
+    · subst e
+      apply covered_mono_run
+      · intro op hop
+        rcases List.mem_map.mp hop with ⟨g, _, rfl⟩; rfl
+      · exact drain_covers s pg h
+    · apply ih
+      · simp only [step, List.mem_filter]
+        refine ⟨h, ?_⟩
+        have : pg.1 ≠ f := fun x => e x.symm
+        simpa using this
+      · rcases List.mem_cons.mp hf with hh | hh
+        · exact absurd hh.symm e
+        · exact hh
+
+/-- COMMIT of a transaction (`commitAll`: every table that has dirty pages is drained) covers every
+page that is dirty at that moment, i.e. every page written through the wrapped storage since its
+table was last drained -/
+theorem commit_all_covers (s : St) (pg : PageId) (h : pg ∈ s.dirty) :
+    covered (run s (commitAll s)) pg = true := by
+  unfold commitAll
+  apply drain_list_covers _ s pg h
+  rw [List.mem_eraseDups]
+  exact List.mem_map.mpr ⟨pg, h, rfl⟩
+
 /-- invariant of every reachable state: no logged image is newer than the page -/
 def WalLe (s : St) : Prop := ∀ x ∈ s.wal, x.2 ≤ getVer s.ver x.1
 
